@@ -28,5 +28,45 @@ def long_poll(ctx, info, rng, *rest):
     return {"long_poll": {"cases": len(rows), "waited_ms": {"%s:%s" % (r["backend"], r["scenario"]): r["waited_ms"] for r in rows}}}
 
 
+def bulk_ready(ctx, info, rng):
+    """hundreds / thousands of messages becoming ready at one instant (leases running out together, also across a restart; nack delays and
+    scheduled deliveries maturing together): each of the next dequeues, a millisecond or a microsecond apart, returns min(batch, ready)
+    (Theorem C05_dequeue_count: the closed form, no model evaluation needed), every message is offered again exactly once"""
+    d = os.path.join(ctx.scratch, "br")
+    os.makedirs(d, exist_ok=True)
+    sizes = [501, 640, 1300] if ctx.tier == "quick" else [501, 777, 1300, 2600, 5200]
+    cases = []
+    for backend in ("memory", "sqlite"):
+        for scen in ("lease-expires", "restart-then-expires", "nack-delay-matures", "scheduled-matures"):
+            if scen == "restart-then-expires" and backend == "memory":
+                continue
+            for n in (sizes if scen in ("lease-expires", "restart-then-expires") else sizes[:2]):
+                cases.append({"backend": backend, "scenario": scen, "n": n, "batch": rng.choice([100, 100, 64]), "step_ns": rng.choice([1000, 10 ** 6, 10 ** 6])})
+    rc, out, err = C.harness_run(info["hbin"], ["bulk-ready"], {"dir": d, "cases": cases}, timeout=900)
+    if rc != 0:
+        raise RuntimeError("bulk-ready failed: " + err[-1500:])
+    outs = json.loads(out)["cases"]
+    for c, o in zip(cases, outs):
+        want, left = [], c["n"]
+        for _ in range((c["n"] + c["batch"] - 1) // c["batch"] + 1):
+            k = min(c["batch"], left)
+            want.append(k)
+            left -= k
+        if o.get("err") or o["counts"] != want or o["distinct"] != c["n"]:
+            first = next((i for i, (a, b) in enumerate(zip(o.get("counts") or [], want)) if a != b), None)
+            C.report(ctx, "bulk-ready:%s:%s" % (c["backend"], c["scenario"]),
+                     "%d messages became ready at the same instant (%s); the following dequeues (batch %d, %d ns apart) returned %s items, "
+                     "min(batch, ready) is %s (first difference at dequeue %s; %d distinct messages re-offered of %d; %s)" %
+                     (c["n"], c["scenario"], c["batch"], c["step_ns"], o.get("counts"), want, first, o.get("distinct", 0), c["n"], o.get("err") or "no error"),
+                     {"kind": "history", "case": c, "observed": o, "expected_counts": want})
+    return {"bulk_ready": {"cases": len(cases), "sizes": sizes, "scenarios": sorted({c["scenario"] for c in cases})}}
+
+
+def extras(ctx, info, rng, *rest):
+    cov = long_poll(ctx, info, rng)
+    cov.update(bulk_ready(ctx, info, rng))
+    return cov
+
+
 def main(ctx, replay):
-    return queuefam.run_property(ctx, "C05", 150, 3000, extra=long_poll)
+    return queuefam.run_property(ctx, "C05", 150, 3000, extra=extras)
